@@ -309,6 +309,18 @@ func genModHist(r *hx.Rand, i, nver int) modHist {
 
 // ---------- running ----------
 
+// moduleDirect: at most four direct records per class from the module histories (one seeded change shows in dozens of
+// old states; the observations keep them all).
+func (c *collector) moduleDirect(class string) bool {
+	c.mu.Lock()
+	defer c.mu.Unlock()
+	if c.modDirect == nil {
+		c.modDirect = map[string]int{}
+	}
+	c.modDirect[class]++
+	return c.modDirect[class] <= 4
+}
+
 type modState map[string][]byte // package name -> derived.gen.go (absent: no entry)
 
 func writeModule(root string, mv modVersion, old modState) {
@@ -341,8 +353,8 @@ func goderiveRetry(cfg hx.Config, root string, mv modVersion, old modState, args
 	var g hx.RunResult
 	for attempt := 0; attempt < 3; attempt++ {
 		writeModule(root, mv, old)
-		g = hx.Goderive(cfg.Goderive, root, args...)
-		if !g.TimedOut {
+		g = goderiveRun(cfg, root, args...)
+		if !g.TimedOut && g.Exit != -2 {
 			break
 		}
 	}
@@ -390,11 +402,11 @@ func runModules(cfg hx.Config, col *collector, r *hx.Rand) {
 				writeModule(rroot, mv, nil)
 				ok := true
 				for _, p := range mv.pkgs {
-					if p.calls && hx.Goderive(cfg.Goderive, rroot, "./"+p.name).Exit != 0 {
+					if p.calls && goderiveRun(cfg, rroot, "./"+p.name).Exit != 0 {
 						ok = false
 					}
 				}
-				if ok && hx.GoVet(rroot, "", "./...").Exit == 0 {
+				if ok && vetRun(rroot, "", "./...").Exit == 0 {
 					col.meta.AddDirect(hx.Direct{Class: "c07-scratch-run-fails",
 						What:  where + ": one run over the module without any derived.gen.go fails, although one run per package (dependencies first) generates everything and the module type-checks",
 						Files: modFiles(mv, nil), Cmd: cmd, Output: hx.Truncate(gs.Out, 1500)})
@@ -496,7 +508,7 @@ func runModules(cfg hx.Config, col *collector, r *hx.Rand) {
 					col.mu.Lock()
 					col.nrun++
 					col.mu.Unlock()
-					if !same && !reported {
+					if !same && !reported && col.moduleDirect("differs") {
 						reported = true
 						fs := modFiles(mv, o.st)
 						fs[p.name+"/derived.gen.go (after the run)"] = string(a)
@@ -509,7 +521,7 @@ func runModules(cfg hx.Config, col *collector, r *hx.Rand) {
 				if oi == 0 {
 					next = A
 					if g.Exit == 0 && gs.Exit == 0 {
-						if vet := hx.GoVet(root, "", "./..."); vet.Exit != 0 {
+						if vet := vetRun(root, "", "./..."); vet.Exit != 0 && col.moduleDirect("vet") {
 							fs := modFiles(mv, o.st)
 							for n, b := range A {
 								fs[n+"/derived.gen.go (after the run)"] = string(b)
@@ -518,7 +530,7 @@ func runModules(cfg hx.Config, col *collector, r *hx.Rand) {
 								What:  where + ": goderive exit 0 but the module does not type-check",
 								Files: fs, Cmd: cmd + " && go vet ./...", Output: hx.Truncate(vet.Out, 1500)})
 						}
-						g2 := hx.Goderive(cfg.Goderive, root, h.args...)
+						g2 := goderiveRun(cfg, root, h.args...)
 						A2 := readModule(root, mv)
 						changed := g2.Exit != 0 || len(A2) != len(A)
 						for n, b := range A {
@@ -526,7 +538,7 @@ func runModules(cfg hx.Config, col *collector, r *hx.Rand) {
 								changed = true
 							}
 						}
-						if changed {
+						if changed && col.moduleDirect("second") {
 							fs := modFiles(mv, o.st)
 							for n, b := range A {
 								fs[n+"/derived.gen.go (after run 1)"] = string(b)
